@@ -109,6 +109,9 @@ type plugWorld struct {
 	kube     *kubefake.Clientset
 	gcli     *fakeGalaxyCli.Clientset
 	hgcli    *hookedCli // gcli behind the stand-in for the API server's cached read path (yieldcli.go)
+	// the last Running object the lister showed for a pod name before it was replaced, updated or removed: what a pod-IP
+	// sync pass that listed the pods earlier (or a pod event handler that runs late) still holds in its hands
+	grave map[string]*corev1.Pod
 	slog     *storeLog
 	plugin   *schedulerplugin.FloatingIPPlugin
 	cloud    *fakeCloud
@@ -409,6 +412,12 @@ func (w *plugWorld) runOp(c map[string]interface{}) map[string]interface{} {
 		if exists {
 			old = oldObj.(*corev1.Pod)
 		}
+		if old != nil && old.Status.Phase == corev1.PodRunning {
+			if w.grave == nil {
+				w.grave = map[string]*corev1.Pod{}
+			}
+			w.grave[ns+"/"+name] = old.DeepCopy()
+		}
 		switch {
 		case err != nil && old == nil:
 		case err != nil && old != nil:
@@ -624,6 +633,17 @@ func (w *plugWorld) runOp(c map[string]interface{}) map[string]interface{} {
 			o["res"] = "err"
 		}
 	case "sync_pod":
+		if b, _ := c["stale"].(bool); b {
+			// the pod-IP sync reaches this pod with the object it listed earlier
+			g := w.grave[Str(c, "ns")+"/"+Str(c, "name")]
+			if g == nil {
+				o["res"] = "skipped"
+				break
+			}
+			o["stale_uid"] = string(g.UID)
+			_ = w.plugin.VerifSyncPodIP(g.DeepCopy())
+			break
+		}
 		obj, exists, _ := w.podIdx.GetByKey(Str(c, "ns") + "/" + Str(c, "name"))
 		if !exists {
 			o["res"] = "skipped"
